@@ -80,6 +80,26 @@ def rule_skip(env, shared):
             elif role == "done" and e.info["op"] == "store" and r["kind"] == "ticket":
                 if len(e.args) >= 2 and e.args[1] in (("int", 1), ("const", "true")):
                     good = (e, "flag form: sets the sticky end flag (admissions gated by rule GATE)")
+        if r["kind"] == "ticket":
+            # SKIP.order: moving the ticket counter (a plain store; the next reservations wrap it around to tickets that may
+            # still be in use) is only safe once the end flag is set: every reservation made after the counter store then
+            # observes the flag at its gate (GATE). The flag store must dominate every store to the counter.
+            flag_bbs = [e.info["top_bb"] for e in evs if e.kind == "atomic" and e.info["op"] == "store"
+                        and R.classify(e.info["place"]) == ("done", adt)
+                        and len(e.args) >= 2 and e.args[1] in (("int", 1), ("const", "true"))]
+            for e in evs:
+                if e.kind == "atomic" and e.info["op"] in ("store", "swap") and R.classify(e.info["place"]) == ("pos", adt):
+                    ko = "SKIP.order|%s" % r["name"]
+                    tb = e.info["top_bb"]
+                    if any(fb != tb and b.dominates(fb, tb) for fb in flag_bbs):
+                        out.append(Ob("SKIP.order", ko, "ok", e.loc(), "the end flag is set before the ticket counter is moved",
+                                      True))
+                    else:
+                        out.append(Ob("SKIP.order", ko, "viol", e.loc(),
+                                      "early_exit of %s moves the ticket counter before the end flag is set: two pulls that "
+                                      "reserve in between receive the last ticket and, after the wrap, ticket 0 again; the "
+                                      "second one passes `ticket == now-serving` with the flag still false and enters the "
+                                      "wrapped iterator next to the current holder of ticket 0" % r["name"]))
         if good is None:
             out.append(Ob("SKIP", key, "viol", b.file_line(),
                           "early_exit of %s neither moves the position counter to/after LEN nor sets the end flag: "
